@@ -83,6 +83,9 @@ def parse_obs(o):
 
 def oracle(ep, outs, want=("C07", "C08")):
     """C07/C08 evaluated on the implementation's own answers (Execute results, State(), Counts())."""
+    if ep[0].startswith("cb race"):
+        return [] if outs and outs[0] == "within-budget" else \
+            ["half-open budget exceeded by callers arriving together: %s -> %s" % (ep[0], outs[0] if outs else "?")]
     cfg = tuple(int(x) for x in ep[0].split()[2:7])
     ft, st_thr, mx, iv, to = defaults(cfg)
     fails = []
@@ -173,6 +176,10 @@ def run_checks(ctx, want):
     d = C.Differential(ctx, binary)
     nep = 4000 if ctx.thorough() else 500
     episodes = C.load_corpus("C07") + [gen_episode(ctx.rng, live=(None if i % 5 == 0 else True), long=ctx.thorough()) for i in range(nep)]
+    if "C07" in want:
+        # callers arriving together at the open -> half-open transition (real goroutines)
+        rounds = 3000 if ctx.thorough() else 300
+        episodes += [["cb race %d %d %d" % (c, m, rounds)] for c, m in ((2, 1), (6, 1), (12, 1), (8, 2))]
     bad = d.check(episodes, oracle=lambda e, o: oracle(e, o, want), label="cb")
     trans = {}
     nontriv = set()
@@ -203,7 +210,7 @@ def run_checks(ctx, want):
 def check(ctx):
     ctx.assumptions += [
         "virtual clock via overlay (time.Now rewritten)",
-        "requests overlap at the granularity of the breaker's critical sections (begin = beforeRequest, end = afterRequest); sync.RWMutex provides the atomicity of each section",
+        "requests overlap at the granularity of the breaker's critical sections (begin = beforeRequest, end = afterRequest); sync.RWMutex provides the atomicity of each section; callers arriving together at the half-open transition are additionally run as real goroutines (cb race) - a search over schedules, the theorem halfopen_budget carries the claim",
         "uint32 counters do not wrap (2^32 consecutive failures)",
     ]
     ok = C.prove(ctx, MODULES, THEOREMS)
